@@ -126,10 +126,12 @@ Theorem C11_path_footprint kp R acts h h' ok :
 Proof. exact (actions_safe kp R acts h h' ok). Qed.
 
 (* ---------------- the three routes: distinct entry points, PROVED to be the same function from constants regenerated from the
-   source on every check (Gen/Generated.v: VectorContainer/BaseLinker `__copy__ is copy`; the body of `__deepcopy__` is
-   `return self.copy()`; no other class of the towers defines copy / __copy__ / __deepcopy__ / __reduce__ / __getstate__ ...).
-   Removing `__copy__ = copy` (copy.copy would fall back to object.__reduce_ex__: a new object holding the SAME arrays) or
-   changing `__deepcopy__` flips a constant and these proofs no longer compile *)
+   code on every check (Gen/Generated.v).  The constants are BEHAVIOURAL: on probe objects (a container with variables and nested
+   user attributes, the full mixin tower over BaseModel, a named linker with two submodels one of which is keyed '_') copy.copy /
+   copy.deepcopy must return an object of the same class, equal in state to obj.copy() and sharing no mutable object with the
+   original.  `__copy__ = copy`, `def __copy__(self): return self.copy()`, a `__deepcopy__` that records its result in the memo all
+   qualify; removing `__copy__` (copy.copy falls back to object.__reduce_ex__: a new object holding the SAME arrays) flips a constant
+   and these proofs no longer compile *)
 Theorem C11_three_routes_are_copy rt K h r :
   copy_route rt K h r = (if is_linker h r then linker_copy_M K h r else copy_M K h r).
 Proof. exact (three_routes_are_copy rt K h r). Qed.
